@@ -34,6 +34,54 @@ theorem sliceNat_whole (s : List Char) (l : Nat) (h : s.length ≤ l) : sliceNat
   simp [sliceNat, List.take_of_length_le h]
 
 
+/-- the characters at 0-based positions `k` with `x ≤ k < y` -/
+def win (s : List Char) (x y : Int) : List Char := sliceNat s x.toNat (y.toNat - x.toNat)
+
+/-- pointwise criterion: two windows that contain the same in-range positions are the same list -/
+theorem win_congr (s : List Char) (x y x' y' : Int)
+    (h : ∀ k : Int, 0 ≤ k → k < s.length → ((x ≤ k ∧ k < y) ↔ (x' ≤ k ∧ k < y'))) :
+    win s x y = win s x' y' := by
+  have h1 := h x.toNat
+  have h2 := h (x.toNat - 1)
+  have h3 := h x'.toNat
+  have h4 := h (x'.toNat - 1)
+  unfold win
+  apply sliceNat_congr
+  by_cases c : x.toNat < y.toNat ∧ x.toNat < s.length
+  · left
+    have e : x.toNat = x'.toNat := by omega
+    refine ⟨e, ?_⟩
+    have h5 := h (min (x.toNat + (y.toNat - x.toNat)) s.length - 1 : Nat)
+    have h6 := h (min (x.toNat + (y.toNat - x.toNat)) s.length : Nat)
+    have h7 := h (min (x'.toNat + (y'.toNat - x'.toNat)) s.length - 1 : Nat)
+    have h8 := h (min (x'.toNat + (y'.toNat - x'.toNat)) s.length : Nat)
+    omega
+  · right
+    omega
+
+theorem sliceNat_eq_win (s : List Char) (X L : Int) (hX : 0 ≤ X) (hL : 0 ≤ L) :
+    sliceNat s X.toNat L.toNat = win s X (X + L) := by
+  unfold win; congr 1; omega
+
+theorem pySlice_eq_win (s : List Char) (a b : Int) :
+    pySlice s (some a) (some b) = win s (adjIdx s.length a) (adjIdx s.length b) := by
+  unfold pySlice win; simp only []; congr 1
+  unfold adjIdx; omega
+
+theorem pySlice_eq_win_none (s : List Char) (a : Int) :
+    pySlice s (some a) none = win s (adjIdx s.length a) s.length := by
+  unfold pySlice win; simp only []; congr 1
+  unfold adjIdx; omega
+
+/-- position `k` (in range) belongs to Python's `s[a:b]` -/
+theorem adjIdx_le (n a k : Int) (hn : 0 ≤ n) (hk0 : 0 ≤ k) (hkn : k < n) :
+    (adjIdx n a ≤ k) ↔ (if a < 0 then a + n ≤ k else a ≤ k) := by
+  unfold adjIdx; omega
+
+theorem lt_adjIdx (n b k : Int) (hn : 0 ≤ n) (hk0 : 0 ≤ k) (hkn : k < n) :
+    (k < adjIdx n b) ↔ (if b < 0 then k < b + n else k < b) := by
+  unfold adjIdx; omega
+
 /-! ### closed forms of what STRING_SLICE computes -/
 
 /-- value of `index_sql`: the 1-based position handed to substr (`n` = what `length(expr)` returns) -/
